@@ -595,12 +595,14 @@ def _prepare_czt_basis(N, M, K, shift, alpha, dtype, norm=False):
 
     # need to populate h piecewise, see Jurling2014 48c, 48d
     start = M // 2 - N // 2 + shift  # difference of the two fftrange origins
-    j = np.arange(-start, -start+M, dtype=dtype)  # do not need a "-1" because arange is naturally end-exclusive
+    # arange(M) - start, not arange(-start, -start+M): for fractional shifts the
+    # latter can round to M+1 elements
+    j = np.arange(M, dtype=dtype) - start
     # j is an index variable
     h[:M] = np.pi * (j * j)
 
     # check for off-by-1 bug
-    j = np.arange(-start-N+1, -start, dtype=dtype)
+    j = np.arange(-N+1, 0, dtype=dtype) - start
     h[K-N+1:K] = np.pi * (j * j)
 
     # order matters, scalar * scalar * array avoids operations on whole array over and over again
